@@ -1,5 +1,6 @@
 import BfeVerif.Common.Proto
 import BfeVerif.C35.Model
+import BfeVerif.Generated.C35
 /-!
   C35 driver.  op / result format: see harness/cmd/c35/main.go.
   The spec oracle replays the schedule with an independent, client-side RFC 7540 view of every stream
@@ -10,9 +11,22 @@ open BfeVerif.Proto
 
 def parseBool (s : String) : Option Bool := if s == "1" then some true else if s == "0" then some false else none
 
-def parseKind (s : String) : Option Kind :=
-  if s == "ok" then some .ok else if s == "bad" then some .bad else if s == "tr" then some .tr
-  else if s.startsWith "cl" then ((s.drop 2).toString.toNat?).map Kind.cl else none
+/-- kinds of the harness mapped to the model's: what newWriterAndRequest rejects is `bad`, what the frame reader
+    rejects is `inv`, a connection-specific header is `conn` with the length of the 400 handler's body -/
+def parseKind (s : String) (es : Bool) : Option Kind :=
+  if s == "ok" || s == "connect" || s == "teok" || s == "teempty" then some .ok
+  else if s == "head" then (if es then none else some .bad)
+  else if ["bad", "nometh", "nopath", "scheme", "status", "badpath", "connectbad"].contains s then some .bad
+  else if ["invupper", "invafter", "invunk", "invdup", "invval", "invmix"].contains s then some .inv
+  else if s == "tr" then some .tr
+  else if s == "te" || s == "te2" then some (.conn 53)   -- `request header "TE" may only be "trailers" in HTTP/2` + LF
+  else if s.startsWith "cl" then ((s.drop 2).toString.toNat?).map Kind.cl
+  else if s.startsWith "ch" then
+    ((s.drop 2).toString.toNat?).map fun i =>
+      let names := BfeVerif.Generated.C35.connHeaders
+      -- `request header "<name>" is not valid in HTTP/2` + LF
+      Kind.conn (41 + (names.getD (i % names.length) "").length)
+  else none
 
 def parseEv (e : String) : Option Ev :=
   if e == "W" then some .W else if e == "A" then some .A else if e == "Q" then some .Q
@@ -22,7 +36,11 @@ def parseEv (e : String) : Option Ev :=
   else
   let f := ((e.drop 1).toString).splitOn ":"
   match e.front, f with
-  | 'H', [id, es, k] => do pure (.H (← id.toNat?) (← parseBool es) (← parseKind k))
+  | 'H', [id, es, k] => do
+    let e ← parseBool es
+    pure (.H (← id.toNat?) e (← parseKind k e))
+  | 'Z', [id] => id.toNat?.map .Z
+  | 'T', [id] => id.toNat?.map .T
   | 'D', [id, n, es] => do pure (.D (← id.toNat?) (← n.toNat?) (← parseBool es) 0)
   | 'D', [id, n, es, pad] => do pure (.D (← id.toNat?) (← n.toNat?) (← parseBool es) ((← pad.toNat?) + 1))
   | 'B', [id, n] => do pure (.B (← id.toNat?) (← n.toNat?))
@@ -41,7 +59,7 @@ def parseOp (op : String) : Option (Nat × List Ev) :=
   match op.splitOn ";" with
   | m :: rest =>
     if !m.startsWith "m=" then none else do
-      let adv ← (m.drop 2).toString.toNat?
+      let adv ← (((m.drop 2).toString.splitOn "/").headD "").toNat?
       let evs ← (rest.filter (· != "")).mapM parseEv
       pure (adv, evs)
   | _ => none
@@ -53,7 +71,7 @@ def renderSite : PanicSite → String
 def renderOut : Out → String
   | .ok => "ok" | .rst c => "rst:" ++ toString c | .ga c => "ga:" ++ toString c | .close => "close"
   | .held => "held" | .skip => "skip" | .busy => "busy" | .nohandler => "nohandler" | .idle => "idle"
-  | .queued => "queued" | .gone => "gone" | .sfail => "fail" | .blocked => "blocked"
+  | .queued => "queued" | .gone => "gone" | .sfail => "fail" | .blocked => "blocked" | .pending => "pending"
   | .panic s => "panic:" ++ renderSite s
 
 def insertNat (k : Nat) : List Nat → List Nat
@@ -90,26 +108,33 @@ structure CView where
   ga : Option Nat := none                 -- the server announced GOAWAY with this code
   gone : Bool := false                    -- a framing-level connection error ended the frame reader
   acks : Nat := 1                         -- SETTINGS of the server not yet acknowledged
+  ghost : Nat → Bool := fun _ => false    -- the client opened this stream with a malformed header block (reset by the
+                                          -- server): closed for RFC 7540, but the server still treats the id as idle
 
 def CView.set (v : CView) (id : Nat) (p : CPh) : CView :=
   let was := v.ph id == .opn || v.ph id == .hcr
   let now := p == .opn || p == .hcr
   { v with ph := fun j => if j = id then p else v.ph j,
+           pending := if p == .closed && v.pending == some id then none else v.pending,
            nOpen := if was && !now then v.nOpen - 1 else if !was && now then v.nOpen + 1 else v.nOpen }
 
 /-- framing-level connection errors (the frame never reaches processFrame; the reader stops) -/
 def framingErr : Ev → Bool
-  | .H id _ _ => id == 0 | .K id _ => id == 0 | .D id _ _ _ => id == 0 | .R id => id == 0
+  | .H id _ _ => id == 0 | .Z id => id == 0 | .K id _ => id == 0 | .D id _ _ _ => id == 0 | .R id => id == 0
   | .G id _ => id != 0 | .U id inc => id == 0 && inc == 0 | .Y id _ _ => id == 0
   | .C _ => true | .X _ => true | .S false (some v) => v > 2147483647 | _ => false
 
 def expectH (adv : Nat) (v : CView) (id : Nat) (es : Bool) (k : Kind) : List String :=
-  if id % 2 != 1 then ["ga:1"]
+  if (match k with | .inv => true | _ => false) then ["rst:1"]      -- malformed header block: stream error, whatever the stream
+  else if id % 2 != 1 then ["ga:1"]
   else match v.ph id with
     | .idle =>
       if id ≤ v.maxId then ["ga:1"]
       else if v.nOpen + 1 > adv then ["rst:7", "rst:1"]     -- RFC 7540 5.1.2: stream error REFUSED_STREAM / PROTOCOL_ERROR
-      else (match k with | .ok => ["ok"] | .cl _ => ["ok"] | _ => ["rst:1"])
+      else (match k with
+            | .ok => ["ok"] | .cl _ => ["ok"]
+            | .conn _ => ["held", "blocked"]      -- RFC 7540 8.1.2.2: must not be served; bfe answers 400 itself
+            | _ => ["rst:1"])
     | .closed => ["ga:1", "rst:5"]
     | .hcr => ["rst:5"]
     | .opn =>
@@ -120,7 +145,9 @@ def expectH (adv : Nat) (v : CView) (id : Nat) (es : Bool) (k : Kind) : List Str
 /-- what RFC 7540 (as listed in C35) demands for event `e` in view `v` before any GOAWAY -/
 def expect0 (adv : Nat) (v : CView) (e : Ev) : List String :=
   match e with
-  | .H id es k => expectH adv v id es k
+  | .H id es k => (match k with | .conn _ => "busy" :: expectH adv v id es k | _ => expectH adv v id es k)
+  | .Z _ => ["ga:1"]
+  | .T _ => ["rst:1"]
   | .K id es => expectH adv v id es .ok
   | .D id n _ _ =>
     match v.ph id with
@@ -151,7 +178,7 @@ def expect0 (adv : Nat) (v : CView) (e : Ev) : List String :=
   | .A => ["ok"]
   | .Q => ["ga:0"]
 
-def expect (adv : Nat) (v : CView) (e : Ev) : List String :=
+def expectCore (adv : Nat) (v : CView) (e : Ev) : List String :=
   if e.isClient && v.gone then ["gone"]
   else
     let base := if framingErr e then (match e with | .S .. => ["ga:3"] | _ => ["ga:1"]) else expect0 adv v e
@@ -159,7 +186,8 @@ def expect (adv : Nat) (v : CView) (e : Ev) : List String :=
     | none => base
     | some code =>
       match e with
-      | .H _ _ _ => if framingErr e then ["ok"] else ["ok"]
+      | .H _ _ .inv => if framingErr e then ["ok"] else ["rst:1"]
+      | .H _ _ _ => ["ok"]
       | .K _ _ => ["ok"]
       | .Q => ["ok"]
       | .D id _ _ _ => if !framingErr e && (code != 0 || id > v.maxId) then ["ok"]
@@ -167,13 +195,22 @@ def expect (adv : Nat) (v : CView) (e : Ev) : List String :=
       | .S _ _ => base.map fun o => if o == "ga:3" then "fail" else if o.startsWith "ga:" then "ok" else o
       | _ => base.map fun o => if o.startsWith "ga:" then "ok" else o
 
+/-- a request with a connection-specific header may also be held back by the harness (`busy`: not sent) -/
+def expect (adv : Nat) (v : CView) (e : Ev) : List String :=
+  match e with
+  | .H _ _ (.conn _) => "busy" :: expectCore adv v e
+  | _ => expectCore adv v e
+
 def advance (v : CView) (e : Ev) (out : String) : CView :=
   let v := if out.startsWith "ga:" && v.ga.isNone then { v with ga := (out.drop 3).toString.toNat? } else v
-  let v := if framingErr e && e.isClient && out != "gone" then { v with gone := true } else v
+  let v := if framingErr e && e.isClient && out != "gone" && out != "busy" then { v with gone := true } else v
   if out == "gone" then v else
   match e with
   | .H id es k =>
-    if v.ga.isSome && !(out.startsWith "ga:") && out == "ok" && v.ph id == .idle && (v.ga != none) && false then v
+    if (out == "held" || out == "blocked") && v.ga.isNone && v.ph id == .idle then
+      let v := ({ v with maxId := id, decl := fun j => if j = id then (if es then some 0 else none) else v.decl j }).set id (if es then .hcr else .opn)
+      if out == "held" then { v with held := some id } else { v with pending := some id }
+    else if out == "busy" then v
     else if out == "ok" && v.ga.isNone then
       match v.ph id with
       | .idle =>
@@ -182,8 +219,11 @@ def advance (v : CView) (e : Ev) (out : String) : CView :=
       | .opn => ({ v with tr := fun j => if j = id then true else v.tr j }).set id .hcr
       | _ => v
     else if out.startsWith "rst" then
-      let v := if v.ph id == .idle && id > v.maxId && id % 2 == 1 then { v with maxId := id } else v
-      v.set id .closed
+      if (match k with | .inv => true | _ => false) then
+        (if v.ph id == .idle then { v with ghost := fun j => j == id || v.ghost j } else v.set id .closed)
+      else
+        let v := if v.ph id == .idle && id > v.maxId && id % 2 == 1 then { v with maxId := id } else v
+        v.set id .closed
     else v
   | .K id es =>
     if out == "ok" && v.ga.isNone && v.ph id == .idle then
@@ -212,11 +252,25 @@ def advance (v : CView) (e : Ev) (out : String) : CView :=
         | none => v
   | .S ack _ => if ack && v.acks > 0 then { v with acks := v.acks - 1 } else v
   | .U id _ => if out.startsWith "rst" && v.ph id != .idle then v.set id .closed else v
+  | .T id => if v.ph id != .idle then v.set id .closed else v
   | _ => v
 
 def evName : Ev → String
   | .H .. => "H" | .D .. => "D" | .R _ => "R" | .F _ => "F" | .P _ => "P" | .B .. => "B" | .W => "W" | .S .. => "S" | .G .. => "G"
-  | .U .. => "U" | .Y .. => "Y" | .C _ => "C" | .X _ => "X" | .K .. => "K" | .A => "A" | .Q => "Q"
+  | .Z _ => "Z" | .T _ => "T" | .U .. => "U" | .Y .. => "Y" | .C _ => "C" | .X _ => "X" | .K .. => "K" | .A => "A" | .Q => "Q"
+
+def evId : Ev → Nat
+  | .H id _ _ => id | .K id _ => id | .D id _ _ _ => id | .R id => id | .U id _ => id | _ => 0
+
+/-- what RFC 7540 allows for a frame on a stream the client opened with a malformed header block (closed) -/
+def ghostExpect : Ev → List String
+  | .H _ _ .inv => ["rst:1"]
+  | .H .. => ["ga:1", "rst:5"]
+  | .K .. => ["ga:1", "rst:5"]
+  | .D .. => ["rst:5"]
+  | .R _ => ["ok"]
+  | .U _ inc => if inc == 0 then ["rst:1"] else ["ok"]
+  | _ => []
 
 def classify (adv : Nat) (v : CView) (e : Ev) (out : String) : String :=
   if out.startsWith "panic:" then "panic-" ++ evName e ++ "-" ++ (out.drop 6).toString
@@ -239,6 +293,10 @@ def judge (adv : Nat) : CView → List Ev → List String → Option String → 
   | _, _, [], first => first.getD "ok"
   | _, [], _ :: _, _ => "FAIL:extra-outcome"
   | v, e :: es, o :: os, first =>
+    -- a stream id the server forgot after a malformed header block: judged by RFC 7540 as a closed stream
+    let first := if v.ghost (evId e) && v.ph (evId e) == .idle && v.ga.isNone && !v.gone && !(ghostExpect e).isEmpty
+        && !(ghostExpect e).contains o && o != "busy"
+      then (first <|> some "FAIL:malformed-headers-stream-stays-idle") else first
     if (expect adv v e).contains o then judge adv (advance v e o) es os first
     else
       let cls := classify adv v e o
